@@ -1,16 +1,47 @@
 """Stage and property tables for bin/check."""
 
-STAGES = {
-    # bounded models: TLC verifies the design-level properties and dumps every edge; each edge is executed on the code
-    "roles": dict(kind="mc", module="MC_Roles", cfg="MC_Roles.cfg"),
-}
+
+def _mc(module, **kw):
+    d = dict(kind="mc", module=module, cfg=dict(quick=module + ".cfg", thorough=module + "_T.cfg"))
+    d.update(kw)
+    return d
+
 
 def _t(quick, thorough=None):
     return dict(quick=quick, thorough=thorough if thorough is not None else quick)
 
+
+STAGES = {
+    # bounded models: TLC verifies the design-level properties and dumps every edge; each edge is executed on the code
+    "roles": _mc("MC_Roles"),
+    "attesters": _mc("MC_Attesters"),
+    "pause": _mc("MC_Pause"),
+    "attest": _mc("MC_Attest"),
+    "receive": _mc("MC_Receive"),
+    "replay": _mc("MC_Replay"),
+    "deposit": _mc("MC_Deposit"),
+    "replace": _mc("MC_Replace"),
+    "outbound": _mc("MC_Outbound"),
+    "registry": _mc("MC_Registry"),
+}
+
 PROP_STAGES = {
+    "C01": _t(["attest", "replace"]),
+    "C02": _t(["replay", "receive"]),
+    "C03": _t(["receive"]),
+    "C04": _t(["receive", "replay"]),
+    "C05": _t(["deposit", "outbound"]),
+    "C06": _t(["deposit", "outbound", "replace"]),
+    "C07": _t(["outbound", "deposit"]),
+    "C08": _t(["deposit"]),
+    "C09": _t(["replace", "outbound"]),
+    "C14": _t(["deposit", "receive"]),
+    "C15": _t(["roles", "registry", "pause"]),
+    "C19": _t(["registry"]),
     "C10": _t(["roles"]),
     "C11": _t(["roles"]),
+    "C12": _t(["pause"]),
+    "C13": _t(["attesters"]),
 }
 
 _COMMON = [
@@ -20,10 +51,26 @@ _COMMON = [
     "secp256k1 / Keccak are ideal (no forgeries, no collisions)",
 ]
 
+
 def _meta(rule, level="model_checking", extra=(), special=None):
     return dict(level=level, rule=rule, assumptions=_COMMON + list(extra), special=special)
 
+
 PROP_META = {
+    "C01": _meta("every (attester set, threshold, attestation) of MC_Attest concretised with real secp256k1 signatures and given to the exported verifier, to receive-message and to replace-message; non-trivial = distinct abstract (state, attestation, message type) triples"),
+    "C02": _meta("every edge of MC_Replay (repeated receives of one key differing in body / recipient / encoding / submitter, interleaved with pause, attester rotation, re-linking; neighbouring keys) and of MC_Receive executed on the real keeper; the used-nonce set is read from the raw store after every transaction"),
+    "C03": _meta("every edge of MC_Receive (product of the acceptance conditions x flag / used / pair / messenger states x mint outcome) executed on the real keeper; non-trivial = receive whose destination caller has zero high bytes"),
+    "C04": _meta("every edge of MC_Receive and MC_Replay executed on the real keeper; mint requests recorded by value by the ledger double; events decoded and projected"),
+    "C05": _meta("every edge of MC_Deposit and MC_Outbound executed on the real keeper against a ledger double with real bookkeeping; transfer / burn requests recorded by value; MessageSent decoded by the reference codec"),
+    "C06": _meta("every successful producing / replacing transaction of MC_Deposit, MC_Outbound, MC_Replace: MessageSent decoded by the independent reference codec and compared field by field, DepositForBurn event compared; non-trivial = observed success"),
+    "C07": _meta("every edge of MC_Outbound (all interleavings to bounded depth of the four producers, failures, ledger faults, replacements of outbox messages) and MC_Deposit executed on the real keeper"),
+    "C08": _meta("every edge of MC_Deposit (product of the deposit preconditions incl. amounts around every limit, body size around 132, ledger failures) executed on the real keeper; non-trivial = deposit transactions"),
+    "C09": _meta("every edge of MC_Replace (originals: own / other's / module deposits / foreign / truncated / junk; attestations valid / absent / rotated away; all flag states) and replacements inside MC_Outbound histories; non-trivial = replacement with a 32-byte new destination caller"),
+    "C14": _meta("every edge of MC_Deposit and MC_Receive with every subset of ledger-call failures and the late validation failures after the burn; non-trivial = deposit / receive transactions", level="model_checking"),
+    "C15": _meta("every edge of MC_Roles, MC_Registry, MC_Pause executed with a recording KVStoreService; raw-store diff and recorded write keys mapped to abstract keys and compared with the documented write sets", extra=["the static for-every-code-path half of the quantifier is approximated by executed-path coverage, not established"]),
+    "C19": _meta("every edge of MC_Registry (add / remove / set over colliding, neighbouring and case-variant keys, bounded depth, from an empty and a populated configuration) executed on the real keeper; registries read back from the raw store"),
     "C10": _meta("every edge of MC_Roles executed on the real keeper; non-trivial = privileged transaction whose submitter is not the holder of its role in the pre-state (distinct (state, type, submitter, argument) tuples)"),
     "C11": _meta("every edge of MC_Roles executed on the real keeper; non-trivial = any transaction whose role slots are compared with the specification's (all edges are distinct (state, message) pairs)"),
+    "C12": _meta("every edge of MC_Pause (4 flag states x 8 user flows x pause/unpause/admin actions, 2-3 transactions deep) executed on the real keeper"),
+    "C13": _meta("every edge of MC_Attesters (all states with 1<=t<=n over the attester-string universe x all enable/disable/update messages) executed on the real keeper; non-trivial = pre-state satisfies the inequality"),
 }
